@@ -65,6 +65,39 @@ fn gen_operand<const K: usize>(r: &mut Rng, n: usize, m: usize, cfg: TreeCfg, di
     }
     t
 }
+/// a tree with the nodes of `a` in the same arena slots and under the same parents, children of some decisions under
+/// mirrored labels, fresh terminal functions (None when a's arena is not in creation order)
+fn relabeled_twin<const K: usize>(r: &mut Rng, a: &AffTree<K>, div: bool) -> Option<AffTree<K>> {
+    let n = a.in_dim();
+    let idxs: Vec<usize> = a.tree.node_indices().collect();
+    if idxs.iter().enumerate().any(|(k, i)| k != *i) || a.tree.get_root_idx() != 0 {
+        return None;
+    }
+    let m = a.terminals().map(|x| x.aff.outdim()).next()?;
+    let val = |r: &mut Rng, i: usize| {
+        if a.tree.is_leaf(i).unwrap() {
+            if div { gen_divisor(r, m, n) } else { gen_aff(r, m, n, 6) }
+        } else {
+            a.tree.node_value(i).unwrap().aff.clone()
+        }
+    };
+    let mut b = AffTree::<K>::from_aff(val(r, 0));
+    let flip: Vec<bool> = (0..idxs.len()).map(|_| r.chance(1, 2)).collect();
+    for i in 1..idxs.len() {
+        let e = a.tree.parent(i).ok()?;
+        let (p, l) = (e.source_idx, e.label);
+        if p >= i {
+            return None;
+        }
+        let l2 = if flip[p] { K - 1 - l } else { l };
+        let v = val(r, i);
+        let got = b.add_child_node(p, l2, v).ok()?;
+        if got != i {
+            return None;
+        }
+    }
+    Some(b)
+}
 fn res<const K: usize>(r: Result<AffTree<K>, String>) -> String {
     match r {
         Ok(t) => sx_tree(&t),
@@ -168,7 +201,15 @@ fn one_case<const K: usize>(r: &mut Rng, id: usize, out: &mut String) {
     let a: AffTree<K> = gen_operand(r, n, m, cfg, false);
     if kind < 6 {
         let bm = if r.chance(1, 15) { m + 1 } else { m };
-        let b: AffTree<K> = gen_operand(r, n, bm, cfg_b, op == "div");
+        let mut b: AffTree<K> = gen_operand(r, n, bm, cfg_b, op == "div");
+        // now and then b has the very nodes of a -- same arena slots, same parents, same predicates -- but hangs some
+        // children under other labels, and carries its own terminal functions: the partitions differ although the
+        // node lists look alike
+        if bm == m && r.chance(1, 6) {
+            if let Some(t) = relabeled_twin(r, &a, op == "div") {
+                b = t;
+            }
+        }
         pre(&format!("(case {} tt {} {} {} (variants panic) (pts ))", id, op, sx_tree(&a), sx_tree(&b)));
         let vs = binop(op, &a, &b);
         // evaluate() of the first variant on sampled points
